@@ -1,7 +1,323 @@
-import OxiVerif.Model.C11
-import OxiVerif.Spec.C11
-namespace OxiVerif.C11
+import OxiVerif.Lemmas.C11Sim
+/-!
+# C11 — text extraction conserves every drawn character
 
-theorem C11_clamp_none (s : List Nat) : clamp none s = s := rfl
+Property theorems only (helpers: `Lemmas/C11.lean`, `Lemmas/C11Sim.lean`).
+
+Objects (all in `Model/C11.lean`, a line-by-line mirror of `text/extraction.rs`):
+* `events P ia cr`      — the operator loop of `process_operations` over a page program `P`
+                          (page stream + form XObjects + fonts), geometry-free;
+* `consume F mh lay max` — the flat accumulation (`append_bounded`, line groups), every geometric
+                          decision a call to the oracle `F : FlatΩ`;
+* `assemble Ω C o a fs` — the `layout_finalize` block of `extract_from_page`, every float comparison
+                          a call to the oracles `Ω : Geo G`, `C : CutΩ`;
+* `extract`             — their composition = `TextExtractor::extract_from_page`;
+* `Spec.run P ia`       — reference semantics written from ISO 32000-1 (which characters a page shows).
+
+Every theorem below quantifies over ALL oracles (`F`, `Ω`, `C`, `geom`), all option records and all
+programs / fragment lists / event lists: there is no size or depth bound.
+-/
+namespace OxiVerif.C11
+open List
+
+variable {G : Type}
+
+/-! ## 1. the assembly stage: nothing dropped, nothing duplicated, whatever the geometry says -/
+
+/-- The fragment pipeline (`merge_close_fragments_in_layout_regions`, `sort_and_merge_fragments`
+    with `detect_and_sort_columns`, `merge_close_fragments`, `merge_into_lines`,
+    `merge_into_paragraphs`) keeps the multiset of non-white-space characters, for every option
+    combination without hyphen merging and EVERY geometry oracle. -/
+theorem C11_layout_conserves (Ω : Geo G) (o : Opts) (hmh : o.mh = false) (fs0 : List (Frag G)) :
+    nonWs (chars (layoutFrags Ω o fs0)) ~ nonWs (chars fs0) :=
+  layoutFrags_nonWs Ω o hmh fs0
+
+/-- The stages that do not sort keep the SEQUENCE (order included). -/
+theorem C11_layout_keeps_order (Ω : Geo G) (o : Opts) (hmh : o.mh = false) (hsp : o.sp = false)
+    (hrp : o.rp = false) (fs0 : List (Frag G)) :
+    nonWs (chars (layoutFrags Ω o fs0)) = nonWs (chars fs0) := by
+  unfold layoutFrags
+  simp only [hmh, hsp, hrp, hyWrap_off, Bool.false_and, Bool.false_eq_true, ↓reduceIte]
+  generalize h1 : (if fs0.isEmpty = true then fs0 else mergeCloseRegions Ω fs0) = fs1
+  have e1 : nonWs (chars fs1) = nonWs (chars fs0) := by
+    rw [← h1]; split
+    · rfl
+    · exact mergeCloseRegions_nonWs Ω fs0
+  split
+  · rw [mergeClose_nonWs, e1]
+  · exact e1
+
+/-- `.fragments` under `preserve_layout`. -/
+theorem C11_assemble_fragments_conserve (Ω : Geo G) (C : CutΩ) (o : Opts) (a : Acc)
+    (fs0 : List (Frag G)) (hmh : o.mh = false) (hpl : o.pl = true) :
+    nonWs (chars (assemble Ω C o a fs0).frags) ~ nonWs (chars fs0) := by
+  unfold assemble
+  simp only [hpl, Bool.not_true, Bool.and_false, Bool.false_and, Bool.false_eq_true, ↓reduceIte]
+  exact layoutFrags_nonWs Ω o hmh fs0
+
+/-- `.text` on every path except the XY-cut reading order: when the flat text and the raw
+    fragments carry the same characters (which `C11_flat_conserves` + `C11_fragments_mirror_flat`
+    establish for whatever the operator loop emits), the assembled text carries them too —
+    for every geometry oracle, every switch combination without hyphen merging and budget. -/
+theorem C11_assemble_text_conserves (Ω : Geo G) (C : CutΩ) (o : Opts) (a : Acc)
+    (fs0 : List (Frag G)) (hmh : o.mh = false) (hmax : o.max = none)
+    (hro : (o.ro && !o.pl && !o.rc) = false)
+    (hcons : fs0 = [] ∨ nonWs (chars fs0) = nonWs a.text) :
+    nonWs (assemble Ω C o a fs0).text ~ nonWs a.text := by
+  have hl := layoutFrags_nonWs Ω o hmh fs0
+  have hne : (layoutFrags Ω o fs0).isEmpty = false → nonWs (chars fs0) = nonWs a.text := by
+    intro h
+    rcases hcons with h0 | h0
+    · subst h0; simp [layoutFrags_nil] at h
+    · exact h0
+  unfold assemble
+  simp only [hmax, hro, clamp_none', hmh, Bool.false_eq_true, ↓reduceIte]
+  cases he : (layoutFrags Ω o fs0).isEmpty
+  · have hc := hne he
+    cases hpl : o.pl <;> cases hrc : o.rc <;>
+      simp only [Bool.not_false, Bool.not_true, Bool.and_true, Bool.and_false,
+        Bool.false_eq_true, ↓reduceIte]
+    · exact Perm.refl _
+    · rw [reconstruct_nonWs, ← hc]
+      exact Perm.trans (sortAndMerge_nonWs Ω _ _) hl
+    · rw [reconstruct_nonWs, ← hc]; exact hl
+    · rw [reconstruct_nonWs, ← hc]; exact hl
+  · simp only [Bool.not_true, Bool.and_false, Bool.false_eq_true, ↓reduceIte]
+    exact Perm.refl _
+
+/-- The byte budget is respected on every path, whatever was accumulated. -/
+theorem C11_budget_respected (Ω : Geo G) (C : CutΩ) (o : Opts) (a : Acc) (fs0 : List (Frag G))
+    (m : Nat) (hmax : o.max = some m) : utf8Len (assemble Ω C o a fs0).text ≤ m := by
+  unfold assemble
+  simp only [hmax]
+  exact clamp_len _ _
+
+/-- With a budget the text is a prefix of the text without one (same accumulator). -/
+theorem C11_budget_prefix (limit : Option Nat) (s : List Nat) : clamp limit s <+: s :=
+  clamp_prefix limit s
+
+/-- The XY-cut (`flat_reading_order::cut_recursive`) returns a permutation of the line groups
+    whatever the cut oracle answers, at every recursion depth. -/
+theorem C11_xycut_permutes (C : CutΩ) (fuel : Nat) (idx : List Nat) : cutRec C fuel idx ~ idx :=
+  cutRec_perm C fuel idx
+
+/-! ## 2. the flat accumulation -/
+
+/-- `append_bounded` driven by any event list, with any geometry oracle, without hyphen fusion and
+    without a budget: the flat text carries exactly the appended characters IN ORDER, the raw
+    fragments carry exactly the fragment events' characters IN ORDER, nothing is truncated. -/
+theorem C11_flat_conserves (F : FlatΩ) (lay : Bool) (evs : List Ev) :
+    (consume F false lay none evs).truncated = false ∧
+    nonWs (consume F false lay none evs).text = nonWs (appTexts evs) ∧
+    nonWs (fragChars (consume F false lay none evs).frags)
+      = (if lay then nonWs (fragTexts evs) else []) := by
+  have h := consumeFrom_inv F lay 0 evs {} rfl
+  simpa [consume, fragChars, nonWs] using h
+
+/-- Whatever the operator loop emits, the characters pushed as fragments are exactly the characters
+    appended to the flat text (same order) — for every program, nesting included. -/
+theorem C11_fragments_mirror_flat (P : Prog) (ia : Bool) (cr : Nat) :
+    fragTexts (events P ia cr).2 = appTexts (events P ia cr).2 :=
+  events_mirror P ia cr
+
+/-! ## 3. the operator loop against the reference semantics
+
+/- FULL:
+   ∀ P ia cr, (Spec.run P ia).ok = true →
+     nonWs (appTexts (events P ia cr).2) = nonWs (Spec.run P ia).runs.reverse.flatten
+   "whenever the reference semantics of ISO 32000-1 assigns the page a sequence of shown runs, the
+   operator loop emits exactly those characters, in painting order".
+   FALSE of the current code: `C11_witness_nested_actualtext`, `C11_witness_winansi_quotes`,
+   `C11_witness_inherited_font_name` below (findings C11-F1, F2, F3).  `C11_emission_partial`
+   proves it for every program on which the reference run meets none of the three situations. -/
+-/
+
+/-- The page is inside the property's domain (`ok`) and the reference run never (F1) opened an
+    `/ActualText` scope inside another one, (F2) showed WinAnsi code 0x93/0x94 in a simple font,
+    (F3) showed a non-empty string inside a form in the font inherited from the caller. -/
+abbrev Clean (P : Prog) (ia : Bool) : Prop := good (Spec.run P ia) = true
+
+/-- Conservation and order at emission: for EVERY page program (any operator list over
+    `BT ET q Q Tf Tj TJ ' " Do BMC BDC EMC` + geometry-only operators, any nesting of forms up to
+    the guard, any fonts of the two modelled classes), every `include_artifacts` and
+    carriage-return policy: the characters the operator loop hands to the flat text are exactly the
+    characters the reference semantics says the page shows — same multiplicity, same ORDER
+    (within a run and across runs). -/
+theorem C11_emission_partial (P : Prog) (ia : Bool) (cr : Nat) (h : Clean P ia) :
+    nonWs (appTexts (events P ia cr).2) = nonWs (Spec.run P ia).runs.reverse.flatten :=
+  events_sim P ia cr h
+
+/-- the same for the fragment stream -/
+theorem C11_emission_fragments_partial (P : Prog) (ia : Bool) (cr : Nat) (h : Clean P ia) :
+    nonWs (fragTexts (events P ia cr).2) = nonWs (Spec.run P ia).runs.reverse.flatten := by
+  rw [events_mirror]; exact events_sim P ia cr h
+
+def W1 : Prog := { fonts := [.simple], streams := [{ fmap := [0], xmap := [], ops :=
+  [.bt, .tf 0, .other, .bdc false (some [0x58]), .tj [0x61], .bdc false (some [0x59]), .tj [0x62],
+   .emc, .tj [0x63], .emc, .et] }] }
+def W2 : Prog := { fonts := [.simple], streams := [{ fmap := [0], xmap := [], ops :=
+  [.bt, .tf 0, .other, .tj [0x93, 0x41, 0x94], .et] }] }
+def W3 : Prog := { fonts := [.type0 0x41 26 [], .type0 0x391 26 []], streams := [
+  { fmap := [0, 1], xmap := [1], ops := [.bt, .tf 0, .other, .tj [0, 1], .et, .doX 0] },
+  { fmap := [1, 0], xmap := [], ops := [.bt, .other, .tj [0, 3], .et] }] }
+
+/-- C11-F1 (corpus/C11/f1_nested_actualtext.req): `BDC(/ActualText X) a BDC(/ActualText Y) b EMC c EMC`
+    — shown `X`, emitted `Yc`. -/
+theorem C11_witness_nested_actualtext :
+    (Spec.run W1 false).ok = true ∧
+    nonWs (Spec.run W1 false).runs.reverse.flatten = [0x58] ∧
+    nonWs (appTexts (events W1 false 0).2) = [0x59, 0x63] := by decide
+
+/-- C11-F2 (corpus/C11/f2_winansi_quotes.req): `<93 41 94> Tj` in a WinAnsi font — shown
+    U+201C A U+201D, emitted `"A"`. -/
+theorem C11_witness_winansi_quotes :
+    (Spec.run W2 false).ok = true ∧
+    nonWs (Spec.run W2 false).runs.reverse.flatten = [0x201C, 0x41, 0x201D] ∧
+    nonWs (appTexts (events W2 false 0).2) = [0x22, 0x41, 0x22] := by decide
+
+/-- C11-F3 (corpus/C11/f3_inherited_font_name.req): the page selects /F0 (Latin) and paints a form
+    whose own /F0 is a Greek font; the form shows `<0003>` without `Tf` — shown `A C`, emitted `A Γ`. -/
+theorem C11_witness_inherited_font_name :
+    (Spec.run W3 false).ok = true ∧
+    nonWs (Spec.run W3 false).runs.reverse.flatten = [0x41, 0x43] ∧
+    nonWs (appTexts (events W3 false 0).2) = [0x41, 0x393] := by decide
+
+/-- the three witnesses refute the FULL statement -/
+theorem C11_full_statement_fails :
+    ¬ (∀ P ia cr, (Spec.run P ia).ok = true →
+        nonWs (appTexts (events P ia cr).2) = nonWs (Spec.run P ia).runs.reverse.flatten) := by
+  intro h
+  have := h W2 false 0 C11_witness_winansi_quotes.1
+  rw [C11_witness_winansi_quotes.2.1, C11_witness_winansi_quotes.2.2] at this
+  exact absurd this (by decide)
+
+/-! ## 4. end to end: `extract_from_page` -/
+
+/- FULL:
+   ∀ P o F Ω C geom, (Spec.run P o.ia).ok →
+     nonWs (extract P o F Ω C geom).text ~ nonWs (Spec.run P o.ia).runs.reverse.flatten
+   Missing in `C11_extract_text_partial`: the three defects above (`Clean`); `merge_hyphenated`
+   (removes run-final hyphens by design) and `max_extracted_bytes` (keeps a prefix by design) — their
+   exact effect is `C11_budget_respected` / `C11_budget_prefix` and the optional-hyphen pattern the
+   run-time oracle checks; the XY-cut reading-order path is covered at the permutation level only
+   (`C11_xycut_permutes`). -/
+
+/-- `.text` of the whole extraction carries exactly the shown characters — every geometry oracle,
+    every layout / sorting / column / paragraph / artifact / carriage-return option. -/
+theorem C11_extract_text_partial (P : Prog) (o : Opts) (F : FlatΩ) (Ω : Geo G) (C : CutΩ)
+    (geom : Nat → G) (hc : Clean P o.ia) (hmh : o.mh = false) (hmax : o.max = none)
+    (hro : (o.ro && !o.pl && !o.rc) = false) :
+    nonWs (extract P o F Ω C geom).text ~ nonWs (Spec.run P o.ia).runs.reverse.flatten := by
+  unfold extract
+  simp only [hmh, hmax]
+  obtain ⟨_, h2, h3⟩ := C11_flat_conserves F (o.pl || o.rc) (events P o.ia o.cr).2
+  have hev := events_sim P o.ia o.cr hc
+  have hcons : (((consume F false (o.pl || o.rc) none (events P o.ia o.cr).2).frags.reverse.map
+        fun x => ({ text := x.1, g := geom x.2 } : Frag G)) = [] ∨
+      nonWs (chars ((consume F false (o.pl || o.rc) none (events P o.ia o.cr).2).frags.reverse.map
+        fun x => ({ text := x.1, g := geom x.2 } : Frag G)))
+        = nonWs (consume F false (o.pl || o.rc) none (events P o.ia o.cr).2).text) := by
+    by_cases hl : (o.pl || o.rc) = true
+    · right
+      rw [chars_of_frags, h3, if_pos hl, h2, events_mirror]
+    · left
+      have e : (o.pl || o.rc) = false := by simpa using hl
+      rw [e]
+      have : (consume F false false none (events P o.ia o.cr).2).frags = [] :=
+        consumeFrom_frags_nolay F false none _ 0 {}
+      simp [this]
+  have := C11_assemble_text_conserves Ω C o _ _ hmh hmax hro hcons
+  refine Perm.trans this ?_
+  rw [h2, hev]
+  exact Perm.refl _
+
+/-- `.fragments` under `preserve_layout` carry exactly the shown characters. -/
+theorem C11_extract_fragments_partial (P : Prog) (o : Opts) (F : FlatΩ) (Ω : Geo G) (C : CutΩ)
+    (geom : Nat → G) (hc : Clean P o.ia) (hmh : o.mh = false) (hmax : o.max = none)
+    (hpl : o.pl = true) :
+    nonWs (chars (extract P o F Ω C geom).frags) ~ nonWs (Spec.run P o.ia).runs.reverse.flatten := by
+  unfold extract
+  simp only [hmh, hmax]
+  obtain ⟨_, _, h3⟩ := C11_flat_conserves F (o.pl || o.rc) (events P o.ia o.cr).2
+  have := C11_assemble_fragments_conserve Ω C o
+    (consume F false (o.pl || o.rc) none (events P o.ia o.cr).2)
+    ((consume F false (o.pl || o.rc) none (events P o.ia o.cr).2).frags.reverse.map
+        fun x => ({ text := x.1, g := geom x.2 } : Frag G)) hmh hpl
+  refine Perm.trans this ?_
+  rw [chars_of_frags, h3]
+  simp only [hpl, Bool.true_or, ↓reduceIte]
+  rw [events_mirror, events_sim P o.ia o.cr hc]
+  exact Perm.refl _
+
+/-- Where nothing sorts (`sort_by_position`, `reconstruct_paragraphs`, `reorder_columns`,
+    reading order all off) the extraction keeps the painting ORDER as well. -/
+theorem C11_extract_flat_order_partial (P : Prog) (o : Opts) (F : FlatΩ) (Ω : Geo G) (C : CutΩ)
+    (geom : Nat → G) (hc : Clean P o.ia) (hmh : o.mh = false) (hmax : o.max = none)
+    (hpl : o.pl = false) (hrc : o.rc = false) (hro : o.ro = false) :
+    nonWs (extract P o F Ω C geom).text = nonWs (Spec.run P o.ia).runs.reverse.flatten := by
+  unfold extract
+  simp only [hmh, hmax, hpl, hrc, Bool.or_self]
+  have hfr : (consume F false false none (events P o.ia o.cr).2).frags = [] :=
+    consumeFrom_frags_nolay F false none _ 0 {}
+  obtain ⟨_, h2, _⟩ := C11_flat_conserves F false (events P o.ia o.cr).2
+  unfold assemble
+  simp only [hfr, hpl, hrc, hro, hmax, clamp_none', List.reverse_nil, List.map_nil, layoutFrags_nil,
+    Bool.false_and, Bool.false_eq_true, ↓reduceIte]
+  rw [h2]; exact events_sim P o.ia o.cr hc
+
+/-! ## 5. non-vacuity -/
+
+/-- a clean page with a form, a `q … Q` font restore, a kerned `TJ`, an `/ActualText` scope and an
+    artifact: the hypotheses of the `_partial` theorems are inhabited by a non-trivial program -/
+def Ex : Prog := { fonts := [.simple, .type0 0x391 26 [(0x201, [0x66, 0x66, 0x69])]], streams := [
+  { fmap := [0, 1], xmap := [1], ops :=
+      [.bt, .tf 0, .other, .tj [0x48, 0x69], .q, .tf 1, .tjArr [.str [0, 1], .num, .str [2, 1]], .Q,
+       .quote [0x21], .bdc false (some [0x4F, 0x4B]), .tj [0x78], .emc, .bmc true, .tj [0x7A], .emc,
+       .et, .doX 0] },
+  { fmap := [1], xmap := [], ops := [.bt, .tf 0, .other, .tj [0, 2], .et] }] }
+
+example : Clean Ex false := by decide
+example : nonWs (Spec.run Ex false).runs.reverse.flatten
+    = [0x48, 0x69, 0x391, 0x66, 0x66, 0x69, 0x21, 0x4F, 0x4B, 0x392] := by decide
+example : nonWs (appTexts (events Ex false 0).2) = nonWs (Spec.run Ex false).runs.reverse.flatten :=
+  C11_emission_partial Ex false 0 (by decide)
+-- the artifact is shown when `include_artifacts` is on
+example : Clean Ex true ∧ nonWs (Spec.run Ex true).runs.reverse.flatten
+    = [0x48, 0x69, 0x391, 0x66, 0x66, 0x69, 0x21, 0x4F, 0x4B, 0x7A, 0x392] := by decide
+
+/-- option records for the examples (hyphen merging off, no budget unless given) -/
+def exOpts (pl sp dc rp : Bool) (max : Option Nat := none) : Opts :=
+  { pl := pl, sp := sp, dc := dc, mh := false, rp := rp, ia := false, rc := false, ro := false,
+    cr := 0, max := max }
+
+/-- the assembly really rewrites the fragments (merges, inserts spaces) and still conserves -/
+example : (layoutFrags (sampleGeo true true) (exOpts true false false false)
+      [⟨[0x61], 0⟩, ⟨[0x62], 5⟩, ⟨[0x63], 9⟩]).map (·.text) = [[0x61, 32, 0x62, 32, 0x63]] := by decide
+example : nonWs (chars (layoutFrags (sampleGeo true true) (exOpts true true true true)
+      [⟨[0x61], 9⟩, ⟨[0x62], 5⟩, ⟨[0x63], 0⟩])) ~ [0x61, 0x62, 0x63] :=
+  C11_layout_conserves _ _ rfl _
+example : C11_layout_keeps_order (sampleGeo false false) (exOpts true false false false) rfl rfl rfl
+      [⟨[0x61], 9⟩, ⟨[0x62], 5⟩] = C11_layout_keeps_order _ _ rfl rfl rfl _ := rfl
+
+/-- the flat accumulation really inserts separators and still conserves -/
+example : (consume sampleFlat false false none [.app .tj [0x61], .app .tj [0x62], .kern true,
+      .app .nl [0x63]]).text = [0x61, 32, 0x62, 32, 10, 0x63] := by decide
+example : (consume sampleFlat false true none (events Ex false 0).2).truncated = false :=
+  (C11_flat_conserves sampleFlat true _).1
+
+/-- the budget really cuts -/
+example : clamp (some 4) [0x61, 0x20AC, 0x62] = [0x61, 0x20AC] := by decide
+example : utf8Len (assemble (sampleGeo false false) sampleCut (exOpts false false false false (some 4))
+      { text := [0x61, 0x20AC, 0x62] } ([] : List (Frag Nat))).text ≤ 4 :=
+  C11_budget_respected _ _ _ _ _ 4 rfl
+
+/-- end to end on the example page, with a sorting, column-detecting, paragraph-building option set -/
+example : nonWs (extract Ex (exOpts true true true true) sampleFlat (sampleGeo true false) sampleCut
+      (fun i => i)).text ~ [0x48, 0x69, 0x391, 0x66, 0x66, 0x69, 0x21, 0x4F, 0x4B, 0x392] := by
+  have h := C11_extract_text_partial Ex (exOpts true true true true) sampleFlat (sampleGeo true false)
+    sampleCut (fun i => i) (by decide) rfl rfl rfl
+  have e : nonWs (Spec.run Ex false).runs.reverse.flatten
+      = [0x48, 0x69, 0x391, 0x66, 0x66, 0x69, 0x21, 0x4F, 0x4B, 0x392] := by decide
+  exact e ▸ h
 
 end OxiVerif.C11
